@@ -398,7 +398,10 @@ pub fn generate_specs(prop: &dyn Prop, tier: Tier) -> Vec<(&'static str, Spec)> 
         // times the base number of definitions given by the property.
         let n = n * 3;
         for _ in 0..n {
-            let s = sample(&strat, &mut r);
+            let mut s = sample(&strat, &mut r);
+            if profile.name == "sink" {
+                crate::props::sink_adjust(&mut s, &mut r);
+            }
             let s = prop.adjust_spec(s, &mut r);
             out.push((profile.name, s));
         }
